@@ -3,7 +3,7 @@ import itertools, json
 from vlib import common
 from vlib.common import hexs
 
-THEOREMS = ["C14_fixed_read_msb_first", "C14_read_consumes_exactly", "C14_start_code_window"]
+THEOREMS = ["C14_concrete_refines_bit_list", "C14_refines_from_any_state", "C14_msb_first", "C14_signed_is_twos_complement", "C14_fixed_read_msb_first", "C14_read_consumes_exactly", "C14_start_code_window"]
 BRIDGES = []
 
 TYPES = ["u8", "u16", "u32", "i16", "i32"]
